@@ -69,7 +69,7 @@ Definition adapt (delta num_points : N) (first_time : bool) : res N :=
   if num_points =? 0 then Panic 33       (* delta / num_points: division by zero *)
   else
     let delta := delta + delta / num_points in
-    match adapt_loop (N.size_nat delta) delta 0 with
+    match adapt_loop (N.to_nat (N.size delta)) delta 0 with
     | None => Panic SITE_FUEL
     | Some (delta, k) => Ok (k + ((BASE - T_MIN + 1) * delta) / (delta + SKEW))
     end.
@@ -252,7 +252,7 @@ Fixpoint enc_vli (fuel : nat) (q k bias : N) : res (list N) :=
         rbind (value_to_digit (t + (q - t) mod (BASE - t))) (fun d =>
         rbind (enc_vli f ((q - t) / (BASE - t)) (k + BASE) bias) (fun r => Ok (d :: r)))
   end.
-Definition vli_fuel (q : N) : nat := Datatypes.S (N.size_nat q).
+Definition vli_fuel (q : N) : nat := Datatypes.S (N.to_nat (N.size q)).
 
 (* `delta + x` / `delta * x` as the caller kind has it *)
 Definition caller_add (cfg_debug external : bool) (site a b : N) : res N :=
